@@ -173,6 +173,9 @@ def run(ctx):
         from checks import c04
         return c04.replay(dict(obligation=r.name, counterexample=r.cex, meta=r.meta))
     ctx.replayers['C03.'] = _rule_replay
+    ctx.replayers['C03.AdzHelper.'] = replay_apply
+    ctx.replayers['C03.Tableau.branch'] = replay_apply
+    ctx.replayers['C03.fork.'] = replay_apply
 
 def _operator_exactness(lname):
     "re-report the operator-rule exactness and shape obligations under C03 names"
@@ -220,3 +223,21 @@ def replay(payload):
         want, cm = E.tt_valid(sem, arg.premises, arg.conclusion)
         return dict(reproduced=(o not in ('valid', 'invalid') or (o == 'valid') != want), detail=f"{f['logic']} {f['argument']}: prover {o}, truth table valid={want}, countermodel={cm}")
     return dict(reproduced=None, detail='see counterexample / meta')
+
+
+def replay_apply(r):
+    "arguments that make a three-way rule fork twice on one branch (nodes shared by sibling lineages): verdict against truth-table validity"
+    from pytableaux.lang import Argument
+    from bounded import prover as P
+    from spec import evaluate as E
+    out = []
+    args = ['Kcb:Abc:Aaa:AaNb:ANaNa', 'Kab:Aab:Acc:AcNa:ANcNc', 'b:Aab:Aaa:ANaNa:AaNb', 'Kcb:Abc:Aaa:AaNb']
+    for L in ('K3W', 'B3E', 'P3', 'MH', 'NH', 'KK3W'):
+        lg = RS.registry()(L); sem = S.spec_of(L)
+        for a in args:
+            arg = Argument(a)
+            want = E.tt_valid(sem, arg.premises, arg.conclusion)
+            for opts in (dict(), dict(is_rank_optim=False, is_group_optim=False)):
+                o = P.outcome(lg, arg, **opts)[0]
+                if o in ('valid', 'invalid') and (o == 'valid') != bool(want): out.append(f'{L} {a} {opts}: prover says {o}, truth tables say {"valid" if want else "invalid"}')
+    return dict(reproduced=bool(out), detail='; '.join(out[:3]) or 'verdicts agree with the truth tables')
